@@ -366,7 +366,11 @@ theorem run_lexeme_lit (o : Oracles) {st : St} {T : List Tok} {p : Bool} (h : Cl
 theorem run_lexeme_ident (o : Oracles) {st : St} {T : List Tok} {p : Bool} (h : Clean st T p) (w : List Char)
     (hv : (Lexeme.ident w).Valid o) :
     ∃ st', run o st (Lexeme.ident w).text = .run st' ∧ Inv o st' (pushTok T ((Lexeme.ident w).tok o)) (Lexeme.ident w).endKind := by
-  obtain ⟨⟨c, r, rfl, ha, hr⟩, hk, h1, h2, h3⟩ := hv
+  obtain ⟨hw, hk, h1, h2, h3⟩ := hv
+  cases w with
+  | nil => exact hw.elim
+  | cons c r =>
+  obtain ⟨ha, hr⟩ := hw
   obtain ⟨st', hrun, hp⟩ := run_word o h ha hr
   refine ⟨st', hrun, Inv.word hp (fun st0 h0 => ?_)⟩
   rw [List.reverse_reverse]
@@ -395,7 +399,16 @@ theorem run_lexeme_int (o : Oracles) {st : St} {T : List Tok} {p : Bool} (h : Cl
 theorem run_lexeme_float (o : Oracles) {st : St} {T : List Tok} {p : Bool} (h : Clean st T p) (a b : List Char)
     (hv : (Lexeme.float a b).Valid o) :
     ∃ st', run o st (Lexeme.float a b).text = .run st' ∧ Inv o st' (pushTok T ((Lexeme.float a b).tok o)) (Lexeme.float a b).endKind := by
-  obtain ⟨⟨c, r, rfl, hca⟩, hnum, n, hn⟩ := hv
+  obtain ⟨ha, hnum, hf⟩ := hv
+  cases a with
+  | nil => exact ha.elim
+  | cons c r =>
+  have hca : (o.info c).alpha = false := ha
+  obtain ⟨n, hn⟩ : ∃ n, o.fparse (c :: r ++ '.' :: b) = .bits n := by
+    cases hfp : o.fparse (c :: r ++ '.' :: b) with
+    | bits n => exact ⟨n, rfl⟩
+    | err => simp only [hfp] at hf
+    | missing => simp only [hfp] at hf
   have h1 := body_num_start o h hca (hnum c (by simp))
   obtain ⟨st1, hr1, hp1⟩ := run_num_cont o r h1 (fun x hx => hnum x (by simp [hx]))
   obtain ⟨st2, hs2, hp2⟩ := step_num_dot o hp1
@@ -562,7 +575,10 @@ theorem Lexeme.text_cons {o : Oracles} (l : Lexeme) (hv : l.Valid o) : ∃ c cs,
     simp only [Lexeme.text] at e
     rw [e] at this
     exact hne (List.length_eq_zero_iff.mp this.symm)
-  | ident w => obtain ⟨⟨c, r, rfl, _⟩, _⟩ := hv; simp [Lexeme.text]
+  | ident w =>
+    cases w with
+    | nil => exact hv.1.elim
+    | cons c r => simp [Lexeme.text]
   | int ds => exact hv.1
   | float a b => simp [Lexeme.text]
   | str body => simp [Lexeme.text]
@@ -772,5 +788,39 @@ theorem tokens_layout (o : Oracles) (L : Layout) (h : L.Ok o) :
   simp only [Option.some.injEq]
   rw [List.map_reverse, ht, fuse]
   simp
+
+
+/-! ### small layouts, comment stripping -/
+
+/-- a text consisting of one lexeme is a layout -/
+theorem single_ok (o : Oracles) (l : Lexeme) (hv : l.Valid o) : ({ items := [([], l)] } : Layout).Ok o := by
+  refine ⟨⟨?_, hv, ⟨fun _ => trivial, fun _ => rfl⟩, trivial⟩, ?_, fun _ => rfl, trivial⟩ <;> (intro i hi; cases hi)
+
+theorem stripGap_ok (o : Oracles) (g : Gap) (h : g.Ok o) : (stripGap g).Ok o := by
+  intro i hi
+  simp only [stripGap, List.mem_map] at hi
+  obtain ⟨j, hj, rfl⟩ := hi
+  cases j with
+  | ws c => exact h _ hj
+  | comment b =>
+    show isSpace o '\n' = true
+    rw [isSpace, info_of_ascii o _ (by decide)]; decide
+
+theorem stripGap_nil (g : Gap) : stripGap g = [] ↔ g = [] := by
+  cases g <;> simp [stripGap]
+
+theorem stripGap_start (g : Gap) : (stripGap g).startsWithComment = false := by
+  cases g with
+  | nil => rfl
+  | cons i g => cases i <;> rfl
+
+theorem stripItems_ok (o : Oracles) (items : List (Gap × Lexeme)) : ∀ k, ItemsOk o k items →
+    ItemsOk o k (items.map (fun x => (stripGap x.1, x.2))) := by
+  induction items with
+  | nil => intro _ _; trivial
+  | cons x rest ih =>
+    intro k h
+    obtain ⟨hg, hv, ⟨hadj, _⟩, hrest⟩ := h
+    exact ⟨stripGap_ok o _ hg, hv, ⟨fun e => hadj ((stripGap_nil _).mp e), fun _ => stripGap_start _⟩, ih _ hrest⟩
 
 end Sqlgrep.Lex
